@@ -181,7 +181,7 @@ class Editor:
         return out
 
 
-def run_history(sh, db, origin, rng, tracer, suite='random', maxlen=12):
+def run_history(sh, db, origin, rng, tracer, suite='random', maxlen=12, case_seed=None):
     try:
         start = db.dbml
     except Exception:
@@ -207,7 +207,7 @@ def run_history(sh, db, origin, rng, tracer, suite='random', maxlen=12):
         tracer.phase = 'render'
         steps.append(kind)
         for msg in ed.lost:
-            sh.violation('stale', f'assignment-lost:after-{kind}', f'after {steps}: {msg}', {'kind': 'edits', 'start': start, 'steps': steps[:]}, {'edit': kind})
+            sh.violation('stale', f'assignment-lost:after-{kind}', f'after {steps}: {msg}', {'kind': 'edits', 'start': start, 'steps': steps[:], 'case_seed': case_seed}, {'edit': kind})
         ed.lost.clear()
         sh.count('obs.edit.' + kind)
         live = renderings(db)
@@ -223,7 +223,7 @@ def run_history(sh, db, origin, rng, tracer, suite='random', maxlen=12):
         if live != prev:
             changed = True
         prev = live
-        case = {'kind': 'edits', 'start': start, 'steps': steps[:], 'origin': origin}
+        case = {'kind': 'edits', 'start': start, 'steps': steps[:], 'origin': origin, 'case_seed': case_seed}
         for key in sorted(set(live) | set(ref)):
             a, b = live.get(key), ref.get(key)
             if a != b:
@@ -240,6 +240,26 @@ def run_history(sh, db, origin, rng, tracer, suite='random', maxlen=12):
     sh.count(f'obs.histories.{origin}')
 
 
+def one_case(sh, case_seed, tracer):
+    """one start database + one edit history, fully determined by case_seed (so a witness can be replayed)"""
+    rng = random.Random(case_seed)
+    doc = gen.random_doc(rng, rng.choice(['small', 'small', 'medium']), 'plain', flavours=('tok',),
+                         props=rng.random() < 0.3, ml_small_notes=False)
+    tracer.phase = 'build'
+    if rng.random() < 0.5:
+        db, err = parse(surface.render(doc, case_seed), allow_properties=doc.allow_properties)
+        origin = 'parsed'
+        if err is not None:
+            sh.count('obs.source_rejected')
+            tracer.phase = 'idle'
+            return
+    else:
+        db = apibuild.build(doc)
+        origin = 'api'
+    tracer.phase = 'idle'
+    run_history(sh, db, origin, rng, tracer, case_seed=case_seed)
+
+
 def plan(tier, seed):
     return [{'shard': i, 'of': 16} for i in range(16)]
 
@@ -253,20 +273,7 @@ def run_shard(spec, tier, seed, budget_s):
     with monitors.WriteTracer() as tracer:
         while k < target and not sh.out_of_time():
             k += 1
-            doc = gen.random_doc(rng, rng.choice(['small', 'small', 'medium']), 'plain', flavours=('tok',),
-                                 props=rng.random() < 0.3, ml_small_notes=False)
-            tracer.phase = 'build'
-            if rng.random() < 0.5:
-                db, err = parse(surface.render(doc, f'{seed}-{i}-{k}'), allow_properties=doc.allow_properties)
-                origin = 'parsed'
-                if err is not None:
-                    sh.count('obs.source_rejected')
-                    continue
-            else:
-                db = apibuild.build(doc)
-                origin = 'api'
-            tracer.phase = 'idle'
-            run_history(sh, db, origin, rng, tracer)
+            one_case(sh, f'{seed}-c10-{i}-{k}', tracer)
         writes = {}
         for phase, cls, attr in tracer.events:
             if phase.startswith('edit:'):
@@ -293,7 +300,11 @@ def conclusive(agg, tier):
 
 
 def replay(v):
-    # histories are regenerated from the seed of the shard; the witness carries start dbml + step kinds for reading
+    """re-runs the whole edit history of the witness from its case seed"""
     sh = Shard(ID)
-    sh.notes.append('C10 witnesses are descriptive (start dbml + edit kinds); re-run the check with the same VERIF_SEED to reproduce')
-    return [dict(v)]
+    cs = (v.get('case') or {}).get('case_seed')
+    if not cs:
+        return [dict(v)]
+    with monitors.WriteTracer() as tracer:
+        one_case(sh, cs, tracer)
+    return sh.violations
